@@ -3,12 +3,15 @@ use crate::*;
 
 #[derive(Default)]
 pub struct Exec {
+    pub sim: Option<simx::SimCtx>,
 }
 
 impl Exec {
     pub fn line(&mut self, line: &str) -> String {
         let toks: Vec<&str> = line.trim().split(' ').collect();
         match toks[0] {
+            "case" => line.trim().to_string(),
+            "sim" => simx::exec(&mut self.sim, &toks[1..]),
             "off" => c35::exec(false, &toks[1..]),
             "offt" => c35::exec(true, &toks[1..]),
             "wop" => c15::exec(&toks[1..]),
